@@ -307,11 +307,18 @@ let () =
   let all = ref [] in
   (try while true do all := input_line ic :: !all done with End_of_file -> ());
   let st = { lines = List.rev !all } in
+  let end_seen = ref false in
   let cases = ref 0 and bad = ref 0 and wf_false = ref 0 in
   let kinds = Hashtbl.create 8 in
   (try
      while st.lines <> [] do
-       let idx = match toks (pop st) with ["case"; i] -> i | t -> failwith ("case expected: " ^ String.concat " " t) in
+       let idx = match toks (pop st) with
+         | ["case"; i] -> i
+         | ["END"; k] ->
+           if st.lines <> [] then failwith "text after the END marker";
+           if int_of_string k <> !cases then failwith (Printf.sprintf "END marker says %s cases, %d read" k !cases);
+           end_seen := true; raise Exit
+         | t -> failwith ("case expected: " ^ String.concat " " t) in
        let net = parse_case st in
        let obs_err = match toks (pop st) with ["obs"; e] -> e = "1" | _ -> failwith "obs expected" in
        let rec obs () = match pop st with "endobs" -> [] | l -> l :: obs () in
@@ -371,7 +378,9 @@ let () =
              List.iter (fun l -> Printf.printf "  [%s] dbc: %s\n" oname (readable l)) md_
            end) oracles
      done
-   with Failure m -> Printf.printf "DRIVER-ERROR %s\n" m; incr bad);
+   with Failure m -> Printf.printf "DRIVER-ERROR %s\n" m; incr bad
+      | Exit -> ());
+  if not !end_seen then begin Printf.printf "DRIVER-ERROR the case file has no END marker (truncated?)\n"; incr bad end;
   Hashtbl.iter (fun k v -> Printf.printf "KIND %s %d\n" k v) kinds;
   (match coq_out with
    | Some f ->
